@@ -56,6 +56,7 @@ SPAWN = [
     {"kind": "grand", "pauses": 1},
     {"kind": "raise_on_cancel", "pauses": 1},
     {"kind": "slow_cancel", "pauses": 1},
+    {"kind": "respawn", "pauses": 1},
 ]
 
 
@@ -122,15 +123,18 @@ def _check_script(program, ch: Chooser) -> Result:
 
         async def script():
             requested = False
+            undelivered = False  # a request was made and its CancelledError not yet delivered
             me = asyncio.current_task()
             for op in program["script"]:
                 if op == "ctx_cancel":
                     ctx.cancel()
                     requested = True
+                    undelivered = True
                     log.append("ctx_cancel")
                 elif op == "task_cancel":
                     me.cancel()
                     requested = True
+                    undelivered = True
                     log.append("task_cancel")
                 elif op == "check":
                     try:
@@ -154,13 +158,22 @@ def _check_script(program, ch: Chooser) -> Result:
                     pauses.append((fut, op))
                     if op == "ext":
                         requested = True
+                        undelivered = True
                     try:
                         await fut
                         log.append(op)
+                        if undelivered:
+                            # every request - also one made after an earlier one was caught - is
+                            # delivered at the next suspension point
+                            viols.append(
+                                viol("not-swallowed", "request-not-delivered", "CancelledError at the next suspension point", "none", script=program["script"], log=list(log))
+                            )
+                            undelivered = False
                     except asyncio.CancelledError:
                         log.append(f"{op}:cancelled-caught")  # user code catches; request stands
-                        if not requested:
+                        if not undelivered:
                             viols.append(viol("check", "spurious-cancellation", "no CancelledError", "raised", script=program["script"]))
+                        undelivered = False
 
         task = loop.create_task(script())
         for _ in range(10):
